@@ -21,6 +21,12 @@ def execute(case):
         else:
             seq = build(score, via4(idx))
             line["in"] = canonical_in(seq, score)
+        if idx % 9 == 8:
+            # history: the same object was quantised to the same grid before and its note ends were moved since (cutoff
+            # with a replacement length off the grid); the judged call starts from what the object holds now
+            seq.quantise(list(steps))
+            seq.cutoff(5, 3)
+            line["in"] = P.raw_abs(seq)
         perturb_returned_defaults()
         if steps == list(DEFAULT_STEPS) and idx % 2:
             seq.quantise()            # the default grid through the default argument
@@ -70,7 +76,7 @@ def run(ctx):
                 cases.append((len(cases), sc, st))
         if not ctx.thorough:   # quick: every score with two of the six step lists (rotating), all six for 1/4 of them
             cases = [c for c in cases if (c[0] // 6) % 4 == 0 or (c[0] % 6) in ((c[0] // 6) % 6, (c[0] // 6 + 3) % 6)]
-        steplists = g["steplists"] + [list(DEFAULT_STEPS), [2, 3], [12], [5, 7], [1]]
+        steplists = g["steplists"] + [list(DEFAULT_STEPS), [2, 3], [12], [5, 7], [1], [12, 8], [24, 16], [4, 6, 4], [8, 3, 8, 3]]
         for _ in range(60000 if ctx.thorough else 8000):
             sc = random_score(ctx.rng, 12 if ctx.rng.random() < .5 else 5, ctx.rng.choice([20, 60, 200]))
             cases.append((len(cases), sc, ctx.rng.choice(steplists)))
